@@ -218,6 +218,11 @@ func refReplies(c *Case, frames [][]byte) [][]byte {
 }
 
 func judgeA(c *Case, r *mon.Rec, frames [][]byte, replies [][]byte, cuts []int) {
+	judgeAP(c, r, frames, replies, cuts, -1)
+}
+
+// judgeAP: as judgeA; pauseSeg >= 0 makes the client hesitate 350 ms before feeding that segment (reassembly must not depend on timing).
+func judgeAP(c *Case, r *mon.Rec, frames [][]byte, replies [][]byte, cuts []int, pauseSeg int) {
 	var all []byte
 	var bounds []int
 	for _, f := range frames {
@@ -226,9 +231,12 @@ func judgeA(c *Case, r *mon.Rec, frames [][]byte, replies [][]byte, cuts []int) 
 	}
 	segs := srvx.Split(all, cuts)
 	dev := simdev.New(devSeed(c), "srv")
-	outs, _, ptxt := srvx.Feed(srvx.DevHandler(dev, nil), segs)
+	outs, _, ptxt := srvx.FeedPaused(srvx.DevHandler(dev, nil), segs, pauseSeg, 350*time.Millisecond)
 	r.Eval(1)
 	a := mon.Attrs{"layer": "A", "requests": len(frames)}
+	if pauseSeg >= 0 {
+		a["paused"] = true
+	}
 	ctx := func() string {
 		return fmt.Sprintf("stream of %d request(s) fc%v (%d bytes, frame ends %v) fed with cuts %v", len(frames), c.FCs, len(all), bounds, brief(cuts))
 	}
@@ -367,6 +375,27 @@ func run(ci any, r *mon.Rec) {
 				a, b = b, a
 			}
 			judgeA(c, r, frames, replies, []int{a, b})
+		}
+		// the client hesitates exactly where an embedded frame begins (and at the start of the payload)
+		f0 := frames[0]
+		type emb struct{ k, n int }
+		var at []emb
+		for k := 8; k+8 <= len(f0); k++ {
+			if f0[k+2] == 0 && f0[k+3] == 0 {
+				if n := 6 + int(f0[k+4])<<8 + int(f0[k+5]); n >= 8 && k+n <= len(f0) {
+					if _, err := specref.DecodeReq(specref.TCP, f0[k:k+n]); err == nil {
+						at = append(at, emb{k, n})
+					}
+				}
+			}
+		}
+		if len(at) > 3 {
+			at = at[:3]
+		}
+		for _, e := range at {
+			judgeAP(c, r, frames, replies, []int{e.k}, 1)            // the rest of the stream arrives after the pause
+			judgeAP(c, r, frames, replies, []int{e.k, e.k + e.n}, 1) // exactly the embedded frame arrives after the pause
+			r.Distinct(mon.Mix(h, 0xEE, uint64(e.k)))
 		}
 	case "cuts2":
 		judgeA(c, r, frames, replies, nil)
